@@ -3,7 +3,7 @@
 From Coq Require Import NArith List Bool.
 From AV Require Import Generated.Table Spec.Utf8 Spec.Vt Model.Base Model.Parser Proofs.TableFacts
   Proofs.VtFacts Proofs.ParserSim Proofs.VtLimits Proofs.VtCancel Proofs.VtCsi Proofs.ParserCor
-  Generated.ParserFn Proofs.ParserGen.
+  Model.Imp Model.Utf8parse Generated.ParserFn Proofs.ParserGen Proofs.ParserGen2.
 Import ListNotations.
 Local Open Scope N_scope.
 
@@ -162,7 +162,7 @@ Proof. vm_compute. reflexivity. Qed.
    sources of Parser::{advance, process_utf8, perform_state_change, perform_action},
    Params::{is_full, clear, push, extend} and state_change; folded over any byte string it
    computes exactly what the hand model -- the subject of every theorem above -- computes.
-   (Parser::osc_dispatch and definitions::unpack are unsafe code: hand-modelled, token-pinned.) *)
+   (Parser::osc_dispatch and definitions::unpack, unsafe code, are translated at value level: see below.) *)
 Theorem c02_translated_advance_is_model :
   forall c p perf b, g_advance c p perf b = acc perf (advance c p b).
 Proof. exact g_advance_eq. Qed.
@@ -180,3 +180,84 @@ Proof.
   pose proof (parser_refines_spec bs H) as E. unfold events_model in E.
   destruct (run cfg_default parser_new bs) as [[? ?]|]; cbn in *; congruence.
 Qed.
+
+(* ---- the rest of the crate, translated as well (tools/gen_fn_parser.py; HACKING.d/parser.md) ---------------- *)
+
+(* Parser::new() = Parser::default(), the derive expanded field by field from the struct items (Params, State's
+   #[default] variant, the accumulator's Default): the hand model's initial state *)
+Theorem c02_translated_new_is_model :
+  forall c, g_parser_new c = parser_new.
+Proof. exact g_parser_new_eq. Qed.
+
+Theorem c02_translated_parser_from_new_is_model :
+  forall c bs, g_run c (g_parser_new c) [] bs = run c parser_new bs.
+Proof. exact translated_parser_from_new. Qed.
+
+(* CharAccumulator::add: Utf8Parser::add with the translated utf8parse callbacks (codepoint / invalid_sequence)
+   or AsciiParser::add, chosen by the `utf8` feature *)
+Theorem c02_translated_char_add_is_model :
+  forall c u b, g_char_add c u b = char_add c u b.
+Proof. exact g_char_add_eq. Qed.
+
+(* ParamsIter: draining the translated `next` (what a performer's `for group in params` sees) is the hand model's
+   fuelled params_iter, from every iterator state; from Params::iter() / into_iter() it is params_groups *)
+Theorem c02_translated_params_iter_is_model :
+  forall c fuel it,
+  iter_drain (g_params_iter_next c) (S fuel) it = params_iter fuel (pit_params it) (pit_index it).
+Proof. exact drain_params_iter. Qed.
+
+Theorem c02_translated_params_groups_is_model :
+  forall c q, g_params_groups c q = params_groups q.
+Proof. exact g_params_groups_eq. Qed.
+
+(* Parser::osc_dispatch, the MaybeUninit slot array read at value level (an uninitialised slot read back = None) *)
+Theorem c02_translated_osc_dispatch_is_model :
+  forall c p perf b, g_osc_dispatch c p perf b = osc_dispatch_acc p perf b.
+Proof. exact g_osc_dispatch_eq. Qed.
+
+(* TryFrom<u8> for State / Action decode the discriminants of Generated/Table.v; unpack (transmute::<u8, _> read at
+   value level as the same decoders) is the hand model's, which is try_from on the two nibbles *)
+Theorem c02_translated_state_try_from :
+  forall c raw, raw < 256 -> g_state_try_from c raw = opt_ok_or (state_of_disc raw) raw.
+Proof. exact g_state_try_from_eq. Qed.
+
+Theorem c02_translated_action_try_from :
+  forall c raw, raw < 256 -> g_action_try_from c raw = opt_ok_or (action_of_disc raw) raw.
+Proof. exact g_action_try_from_eq. Qed.
+
+Theorem c02_translated_unpack_is_model :
+  forall c delta, g_unpack c delta = unpack delta.
+Proof. exact g_unpack_eq. Qed.
+
+Theorem c02_translated_unpack_is_try_from :
+  forall c delta, delta < 256 ->
+  unpack delta =
+  match g_state_try_from c (N.land delta 15), g_action_try_from c (N.shiftr delta 4) with
+  | inl s, inl a => Some (s, a)
+  | _, _ => None
+  end.
+Proof. exact unpack_is_try_from. Qed.
+
+(* trait Perform: a callback that is not overridden does nothing *)
+Theorem c02_translated_perform_defaults_noop :
+  forall (T : Type) c (pf : T) evs, fold_left (g_perform_default_event T c) evs pf = pf.
+Proof. exact g_perform_default_events. Qed.
+
+(* <Params as Debug>::fmt prints the textual form the CSI round trip (section 4) is about, in brackets *)
+Theorem c02_translated_params_debug :
+  forall c q f,
+  g_params_debug_fmt c q f = (G <- params_groups q ;; Some (f ++ [91] ++ print_params G ++ [93], inl tt)).
+Proof. exact g_params_debug_fmt_eq. Qed.
+
+(* ParamsIter::size_hint reports the number of VALUES left as lower and upper bound; the iterator yields GROUPS:
+   for [1:2] the hint is (2, Some 2) and one item follows -- the lower bound of Iterator::size_hint is not one *)
+Theorem c02_translated_size_hint :
+  forall c it,
+  g_params_iter_size_hint c it = (d <- csub (plen (pit_params it)) (pit_index it) ;; Some (d, Some d)).
+Proof. exact g_params_iter_size_hint_eq. Qed.
+
+Theorem c02_translated_size_hint_overcounts :
+  let q := mkParams (2 :: 0 :: repeat 0 30) (1 :: 2 :: repeat 0 30) 0 2 in
+  params_groups q = Some [[1; 2]] /\
+  g_params_iter_size_hint cfg_default (g_params_iter cfg_default q) = Some (2, Some 2).
+Proof. exact size_hint_overcounts. Qed.
